@@ -42,6 +42,8 @@ def run(prog, tier):
     R.unproven += R2.unproven
     check_enum_start(R, prog)
     check_index_order(R, prog)
+    from ._shared import check_no_shared_state
+    check_no_shared_state(R, prog, P, ['cnfgen.formula'], 120)
     return R
 
 
